@@ -3,6 +3,7 @@ import NomtModel.Core.PathUpdateExec
 import NomtModel.Core.TermHasher
 import NomtModel.Core.UpdateNoPanic
 import NomtModel.Core.Complete
+import NomtModel.Core.MultiTotal
 /-!
 # C18 — Proof verifiers are total: any input gets a verdict, never a panic
 
@@ -91,5 +92,22 @@ def badRoot : T := .node (.leaf [true, false] 7) .term
 example : ∃ v, verify TH 2 { terminal := .leaf [true, false] 7, siblings := [T.term] } [false, false] badRoot = .ok v ∧
     (pathVerifyUpdate TH 2 badRoot [ { inner := v, ops := [([false, false], some 1)] } ]).isPanic = true :=
   ⟨_, rfl, by decide⟩
+
+/-- T18.3 **`verify_multi_proof` is total**: for EVERY multi-proof object (any terminals, any depths, any
+number of siblings — no hypothesis on lengths is needed) and every root, the mirror of the repaired
+`verify` / `verify_range` returns a verdict: none of the remaining slice / index / subtraction /
+`unwrap_err` sites is reachable, and the fuel of the Lean recursion is never exhausted. -/
+theorem T18_3_verify_multi_total (mp : MultiProof Node VH) (root : Node) :
+    (verifyMulti H mp root).isPanic = false :=
+  verifyMulti_no_panic H mp root
+
+/-- T18.4 (multi-proof lookups are total): on an accepted multi-proof, for a key at least as long as
+every verified depth (true for 256-bit keys: `depth ≤ |terminal path| ≤ 256`), `find_index_for`,
+`confirm_value` and `confirm_nonexistence` never reach a panic site. -/
+theorem T18_4_multi_lookups_total (mp : MultiProof Node VH) (root : Node) (v : VerifiedMulti Node VH)
+    (hv : verifyMulti H mp root = .ok v) (key : Key) (hk : ∀ vp ∈ v.inner, vp.depth ≤ key.length) (vh : VH) :
+    (findIndexFor v key).isPanic = false ∧ (confirmValue v key vh).isPanic = false ∧
+    (confirmNonexistence v key).isPanic = false :=
+  multi_lookups_total H mp root v hv key hk vh
 
 end Nomt.C18
